@@ -75,8 +75,21 @@ pub fn run(ctx: &Ctx) -> i32 {
         all_fix &= !st.capped;
         per_cfg.push(stats_json(name, &st));
     }
+    // ---- the schedule half: every interleaving of the critical sections of small concurrent programs
+    // (C04's explorer and quick families), invariants I1-I8 on the dump at quiescence
+    let (sched_programs, schedules, sched_fams) = match crate::props::c04::explore_integrity(ctx) {
+        Ok(x) => x,
+        Err(e) => {
+            eprintln!("machinery: {}", e);
+            return 2;
+        },
+    };
+    println!("  schedules: {} concurrent programs, {} interleavings checked at quiescence", sched_programs, schedules);
     let cov = J::obj([
         ("states", J::i(states)),
+        ("concurrent_programs", J::i(sched_programs)),
+        ("interleavings_checked_at_quiescence", J::i(schedules)),
+        ("concurrent_families", J::Arr(sched_fams)),
         ("transitions", J::i(trans)),
         ("traces_validated_against_impl", J::i(trans)),
         ("samples", J::Arr(obs.samples.lock().unwrap().clone())),
@@ -92,7 +105,7 @@ pub fn run(ctx: &Ctx) -> i32 {
         assumptions: vec![
             "a successor that violates an invariant is reported and not expanded further (futures of a corrupt state are meaningless)".into(),
             "bounded namespace {a,b} depth 2 plus chain /a/a/a; states beyond the entry bound are checked but not expanded".into(),
-            "the schedule half of the quantifier (quiescence after concurrent schedules) is evaluated by the C04 check on every explored schedule".into(),
+            "the schedule half of the quantifier (quiescence after concurrent schedules) uses the C04 explorer with its quick families; only the integrity invariants are evaluated here, linearizability is C04's".into(),
         ],
     })
 }
@@ -100,6 +113,9 @@ pub fn run(ctx: &Ctx) -> i32 {
 fn replay(ctx: &Ctx, p: &std::path::Path) -> i32 {
     let j = json::parse(&std::fs::read_to_string(p).expect("read replay")).expect("parse replay");
     let case = j.get("case").expect("case");
+    if case.get("program_idx").is_some() {
+        return crate::props::c04::replay_integrity(ctx, p);
+    }
     let cfg = config_by_name(case.get("config").and_then(|x| x.as_str()).expect("config")).expect("known config");
     println!("replay {} config {}", ctx.prop, cfg.name);
     let (fs, _) = replay_history(&cfg, case).expect("history");
